@@ -14,14 +14,15 @@ EXTENDS Metrics
 Trace == ndJsonDeserialize("C36_trace.ndjson")
 
 VARIABLE l
-TraceInit == l = 0 /\ focus = "all" /\ c1 = "plain" /\ c2 = "plain" /\ n = 1 /\ filter = "none" /\ done = FALSE
+TraceInit == l = 0 /\ focus = "all" /\ c1 = "plain" /\ c2 = "plain" /\ n = 1 /\ filter = "none" /\ ri = 0 /\ rk = 0 /\ done = FALSE
 TraceNext == l < Len(Trace) /\ l' = l + 1 /\ UNCHANGED vars
 TraceSpec == TraceInit /\ [][TraceNext]_<<l, vars>>
 
 Verdicts ==
     l >= 1 => LET r == Trace[l]  f == Failing(r) IN
               /\ Monitor(f = {}, [l |-> l, monitors |-> f, bad |-> BadSamples(r), deviation |-> DeviationOf(r.ents)])
-              /\ ((~r.nofilter \/ ~r.parseOK \/ Missing(r) = {}) \/ Emit("DRIFT", [l |-> l, what |-> "missing", ents |-> Missing(r)]))
+              /\ ((~r.nofilter \/ ~r.parseOK \/ Missing(r) \cup MissingReaders(r) = {})
+                  \/ Emit("DRIFT", [l |-> l, what |-> "missing", ents |-> Missing(r) \cup MissingReaders(r)]))
               /\ ((L1Broken(r.ents) <=> (f # {})) \/ Emit("DRIFT", [l |-> l, what |-> "l1"]))
 Accepted == TLCGet("stats").diameter - 1 = Len(Trace)
 =============================================================================
